@@ -423,6 +423,44 @@ def rule_r3(chk):
     ok = ("forqidinself._invariant.output_qids:" in src and "name=self._invariant.names[qid]" in src and "v.data[qid,column_slice]forvinself._variants" in src
           and "Series.from_start_and_array(start=start,array=array,description=description,trim=trim)" in src)
     chk.ob("C19-R3", "dataslates.main.Dataslate.to_databox", ok, "row qid -> series named names[qid] starting at the slate's (or base) start, one variant per dataslate variant", m.loc(td))
+    # the same by finite evaluation: whichever span is asked for, element i of the series named names[qid] is dated start + i and holds
+    # the value of the column that belongs to that period (column = period - slate start)
+    T, S0, NI = 8, 100, 2
+    for span in ("full", "base"):
+        key = f"dataslates.main.Dataslate.to_databox[dating, span={span}]"
+        variants_ = [fin.FinObj(data=fin.FinMat([[1000 * v + 100 * q + t for t in range(T)] for q in range(3)])) for v in range(2)]
+        me = fin.FinObj(start=S0, base_start=S0 + NI, base_slice=slice(NI, T - 1), base_columns=tuple(range(NI, T - 1)), num_names=3, num_variants=2, num_periods=T,
+                        periods=tuple(range(S0, S0 + T)), base_periods=tuple(range(S0 + NI, S0 + T - 1)), end=S0 + T - 1, base_end=S0 + T - 2,
+                        _invariant=fin.FinObj(output_qids=(0, 2), names=("a", "b", "c"), descriptions=("", "", "")), _variants=variants_)
+        funcs = dict(fin.MATRIX_FUNCS)
+        funcs["Databox"] = dict
+        funcs["Series.from_start_and_array"] = lambda **kw: kw
+        funcs["slice"] = slice
+        try:
+            ps_ = params(td)
+            out = fin.run_function(td, {ps_[0]: me, ps_[1]: None, ps_[2]: span, ps_[3]: True}, funcs)
+        except (fin.NotFinite, fin.Raised, TypeError, AttributeError, IndexError, KeyError) as ex:
+            chk.undecided("C19-R3", key, f"not finitely evaluable: {type(ex).__name__}: {ex}", m.loc(td))
+            continue
+        bad = None
+        if sorted(out) != ["a", "c"]:
+            bad = f"series written: {sorted(out)}, expected the output names ['a', 'c']"
+        for name, q in (("a", 0), ("c", 2)):
+            if bad:
+                break
+            kw = out[name]
+            st_, arr = kw.get("start"), kw.get("array")
+            rows = arr.rows if isinstance(arr, fin.FinMat) else None
+            want_n = T if span == "full" else T - 1 - NI
+            if rows is None or not isinstance(st_, int) or len(rows) != want_n or (span == "base" and st_ != S0 + NI) or (span == "full" and st_ != S0):
+                bad = f"series {name!r} starts at {st_} with {len(rows) if rows is not None else '?'} periods; span={span} is {want_n} periods from {S0 if span == 'full' else S0 + NI} (slate start {S0}, {NI} initial periods)"
+                break
+            for i, r in enumerate(rows):
+                col = st_ + i - S0
+                if list(r) != [1000 * v + 100 * q + col for v in range(2)]:
+                    bad = f"series {name!r}: the element dated {st_ + i} holds {list(r)}, i.e. column {r[0] % 100} of the slate, but that period is column {col}: the values are misdated by {r[0] % 100 - col} period(s)"
+                    break
+        chk.ob("C19-R3", key, bad is None, bad or "each element is dated with the period of the column it was read from", m.loc(td), sure=True)
     sv = m.func("_slate_value_variant_iterator")
     ok = "value.iter_data_variants_from_until(from_until)" in squash(sv)
     fdb = m.func("Dataslate.from_databox")
@@ -430,7 +468,55 @@ def rule_r3(chk):
     chk.ob("C19-R3", "dataslates.main.Dataslate.from_databox[span]", ok, "series are cut to [first, last] period of the slate; outside values are NaN (C10-R5)", m.loc(fdb))
 
 
+def rule_r6(chk, rid="C19-R6"):
+    chk.rule(rid, "what to_csv_file reports as exported is what it writes: the export blocks, evaluated finitely for frequency tables that include a "
+             "frequency whose span is empty (series without observations are written as a header-only block), carry exactly the names of "
+             "info['names_exported'], each with the periods of its frequency", floor=1, shape_independent=True)
+    from .. import fin
+    m = chk.repo.mod(EXP)
+    f = m.func("Inlay.to_csv_file")
+    chk.saw(m, "Inlay.to_csv_file")
+    blocks_node = info_node = None
+    for n in walk_no_nested(f):
+        if isinstance(n, ast.Assign) and len(n.targets) == 1 and isinstance(n.targets[0], ast.Name):
+            if n.targets[0].id == "export_blocks":
+                blocks_node = n.value
+            if n.targets[0].id == "info":
+                info_node = n.value
+    if blocks_node is None or info_node is None:
+        raise AnalysisError("anchor vanished: export_blocks / info in Inlay.to_csv_file")
+    cases = (
+        ("all series observed", {"Q": (1, 2, 3), "M": (7, 8)}, {"Q": ("a", "b"), "M": ("c",)}),
+        ("one series without observations", {"Q": (1, 2, 3), "U": ()}, {"Q": ("a",), "U": ("empty",)}),
+        ("only series without observations", {"U": ()}, {"U": ("e1", "e2")}),
+        ("a frequency without names", {"Q": (1, 2), "M": (5,)}, {"Q": ("a",), "M": ()}),
+    )
+    bad = None
+    try:
+        for label, span, names in cases:
+            made = []
+            env = {"frequency_span": span, "frequency_names": names,
+                   "export_block_constructor": lambda **kw: made.append(kw) or kw}
+            list(fin.ev(blocks_node, env, fin.STDLIB_FUNCS))
+            info = fin.ev(info_node, env, fin.STDLIB_FUNCS)
+            written = sorted(x for b in made for x in b.get("names", ()))
+            reported = sorted(info.get("names_exported", ()))
+            if written != reported:
+                bad = f"{label}: blocks are written for {written} but names_exported reports {reported} - {sorted(set(reported) - set(written))} vanish from the file"
+                break
+            wrong = [b for b in made if tuple(b.get("periods", ())) != tuple(span[b.get("frequency")])]
+            if wrong:
+                bad = f"{label}: block of frequency {wrong[0].get('frequency')} is written with periods {wrong[0].get('periods')}, not {span[wrong[0].get('frequency')]}"
+                break
+    except (fin.NotFinite, fin.Raised, TypeError, KeyError, AttributeError) as ex:
+        chk.undecided(rid, "databoxes._exports.Inlay.to_csv_file[blocks == names_exported]", f"not finitely evaluable: {type(ex).__name__}: {ex}", m.loc(f))
+        return
+    chk.ob(rid, "databoxes._exports.Inlay.to_csv_file[blocks == names_exported]", bad is None,
+           bad or f"{len(cases)} frequency tables incl. empty spans: every reported name is in a written block", m.loc(blocks_node), sure=True)
+
+
 def run(chk):
+    chk.guard(rule_r6, chk)
     chk.guard(rule_r1, chk)
     chk.guard(rule_r2, chk)
     chk.guard(rule_r3, chk)
